@@ -588,6 +588,10 @@ class ViewParameter(AbstractParameter, ParameterListener):
             and self.indices.__eq__(other.indices)
         )
 
+    def parameters(self) -> list[AbstractParameter]:
+        # what has to be saved and restored is the parameter behind the view
+        return self.parameter.parameters()
+
     @property
     def tensor(self) -> Tensor:
         return self.parameter.tensor[..., self.indices]
@@ -824,6 +828,14 @@ class CatParameter(AbstractParameter, ParameterListener):
     def handle_parameter_changed(self, variable, index, event) -> None:
         self._need_update = True
         self.fire_parameter_changed()
+
+    def parameters(self) -> list[AbstractParameter]:
+        # what has to be saved and restored are the concatenated parameters
+        return [
+            p
+            for parameter in self._parameter_container.params()
+            for p in parameter.parameters()
+        ]
 
     @classmethod
     def from_json(cls, data, dic):
